@@ -211,7 +211,7 @@ fn check_case(prog: &Prog, decls: &Decls, base: &Sess, tokens: &[String], o: &mu
 
 pub fn c09(progs: &[Prog], decls: &Decls, max_tokens: usize) -> EnumOutcome {
     let t0 = Instant::now();
-    let base = new_sess(160, 0, PROMPT, false);
+    let base = new_sess(1024, 0, PROMPT, false); // larger than any enumerated line (four 39-digit u128 tokens)
     let list: Vec<&Prog> = progs.iter().filter(|p| matches!(decls.map.get(p.id), Some(DeclD::Command { .. }) | Some(DeclD::Group { .. }))).collect();
     let mut out = list
         .par_iter()
@@ -481,7 +481,7 @@ fn help_case(prog: &Prog, base: &Sess, tokens: &[String], o: &mut EnumOutcome) -
 
 pub fn c12(progs: &[Prog], decls: &Decls, max_tokens: usize) -> EnumOutcome {
     let t0 = Instant::now();
-    let base = new_sess(200, 0, PROMPT, false);
+    let base = new_sess(1024, 0, PROMPT, false);
     let list: Vec<&Prog> = progs.iter().filter(|p| matches!(decls.map.get(p.id), Some(DeclD::Command { .. }) | Some(DeclD::Group { .. }))).collect();
     let mut out = list
         .par_iter()
